@@ -232,6 +232,18 @@ def make_source(kind, data):
     raise ValueError(kind)
 
 
+def rest_str(e):
+    """the surplus bytes an error carries - read, then read again after the error has been rendered as text (as a logging `except`
+    clause does): an error is a value, what it carries must not depend on how often it is looked at (seed C05j)"""
+    r1 = bytes(e.bytes_remaining).hex()
+    try:
+        str(e)
+        r2 = bytes(e.bytes_remaining).hex()
+    except Exception as e2:  # noqa
+        r2 = "?" + type(e2).__name__
+    return r1 if r1 == r2 else f"{r1}!second-read={r2}"
+
+
 def impl_dec(mode, tname, cc, enc, data, source="counting", unmarshal=False, root=None, front=None):
     """Run Binary.marshal on the real code; return canonical lines (events, then one R line).
     source: "counting" (pull counts are real) or another iterable kind (pull counts printed as 0).
@@ -281,13 +293,13 @@ def impl_dec(mode, tname, cc, enc, data, source="counting", unmarshal=False, roo
             if isinstance(e, InputStreamBytesDepletedError):
                 lines.append(f"R depleted cc={cc_str(e.command_code)}")
             else:
-                lines.append(f"R superfluous rest={bytes(e.bytes_remaining).hex()} cc={cc_str(e.command_code)} obj={obj_str(obj)}")
+                lines.append(f"R superfluous rest={rest_str(e)} cc={cc_str(e.command_code)} obj={obj_str(obj)}")
         else:
             lines.append(f"R done obj={obj_str(obj)}")
     except InputStreamBytesDepletedError as e:
         lines.append(f"R depleted cc={cc_str(e.command_code)}")
     except InputStreamSuperfluousBytesError as e:
-        lines.append(f"R superfluous rest={bytes(e.bytes_remaining).hex()} cc={cc_str(e.command_code)} obj=None")
+        lines.append(f"R superfluous rest={rest_str(e)} cc={cc_str(e.command_code)} obj=None")
     except ConstraintViolatedError as e:
         rem = e.bytes_remaining
         try:
@@ -466,8 +478,10 @@ def impl_front(which, text):
         return [f"F crash {type(e).__name__}"]
 
 
-def make_pcapng(payloads, link="ip"):
-    """a pcapng capture whose packets carry the given TPM payloads (IP/TCP like tpm2-tss tcti-pcap, or Ethernet)"""
+def make_pcapng(payloads, link="ip", clock="uneven"):
+    """a pcapng capture whose packets carry the given TPM payloads (IP/TCP like tpm2-tss tcti-pcap, or Ethernet).
+    Timestamps: pcapng does not promise increasing ones (coarse clocks, clock steps, merged captures) - by default pairs of packets
+    share a timestamp and the clock steps back every few packets; the payload order is the order in the file (seed C15j)"""
     import io
     import dpkt
     f = io.BytesIO()
@@ -477,7 +491,7 @@ def make_pcapng(payloads, link="ip"):
         ip = dpkt.ip.IP(src=b"\x7f\x00\x00\x01", dst=b"\x7f\x00\x00\x01", p=dpkt.ip.IP_PROTO_TCP, data=tcp)
         ip.len = 20 + len(tcp)
         pkt = bytes(ip) if link == "ip" else bytes(dpkt.ethernet.Ethernet(data=ip))
-        w.writepkt(pkt, ts=1.0 + i)
+        w.writepkt(pkt, ts=(1.0 + i) if clock == "increasing" else 1.0 + ((i // 2 * 7) % 5))
     return f.getvalue()
 
 
